@@ -313,6 +313,62 @@ def flat_ops(ops):
             yield from flat_ops(o[-1])
 
 
+# ---------------------------------------------------------------- which histories the property speaks about
+
+def trace(ops):
+    """(primitive steps executed, raised?): context managers unfolded into enter / body / exit-always, nothing after a raise"""
+    out = []
+
+    def run(ops):
+        for op in ops:
+            tag = str(op[0])
+            if tag == 'raise':
+                return True
+            if tag == 'with-pragmas':
+                out.append(('attach', [str(t) for t in op[1]], sbool(op[2])))
+                r = run(op[3])
+                out.append(('detach', [str(t) for t in op[1]], sbool(op[2])))
+            elif tag == 'with-regions':
+                out.append(('rattach',))
+                r = run(op[2])
+                out.append(('rdetach',))
+            elif tag == 'with-df':
+                out.append(('dfattach',))
+                r = run(op[1])
+                out.append(('dfdetach',))
+            else:
+                r = False
+                if tag in ('attach', 'detach'):
+                    out.append((tag, [str(t) for t in op[1]], sbool(op[2])))
+                else:
+                    out.append((tag,))
+            if r:
+                return True
+        return False
+    raised = run(ops)
+    return out, raised
+
+
+def closed(tr):
+    """every attach step is undone by matching detach steps later in the trace, in whatever order: for every class
+    an attach_pragmas step attaches to there is a later detach_pragmas step for that class (and one with
+    detach_pragma_post if the attach handled pragma_post); every attach_pragma_regions / attach_dataflow_analysis step is
+    followed by a detach_pragma_regions / detach_dataflow_analysis step"""
+    for i, st in enumerate(tr):
+        later = tr[i + 1:]
+        if st[0] == 'attach':
+            for k in st[1]:
+                if not any(d[0] == 'detach' and k in d[1] for d in later):
+                    return False
+                if st[2] and not any(d[0] == 'detach' and k in d[1] and d[2] for d in later):
+                    return False
+        elif st[0] == 'rattach' and not any(d[0] == 'rdetach' for d in later):
+            return False
+        elif st[0] == 'dfattach' and not any(d[0] == 'dfdetach' for d in later):
+            return False
+    return True
+
+
 # ---------------------------------------------------------------- shape of a history
 
 def shape(ops):
@@ -388,6 +444,15 @@ def gen_block(rng, depth, var, budget):
             lines.append(ind + 'call sub(a, n)')
         elif c < 0.56:
             lines.append(ind + '! a comment')
+        elif c < 0.62 and depth < 3:
+            # loop with its own leading/trailing pragmas, optionally wrapped directly in a region
+            v = 'ijk'[depth]
+            rs, re_ = rng.choice(REGIONS[:4])
+            wrap = rng.random() < 0.6
+            lp, le = rng.choice([('!$omp parallel do', '!$omp end parallel do'), ('!$acc parallel loop gang', '!$acc end parallel loop'),
+                                 ('!$loki loop', None), (None, '!$omp end do')])
+            lines += ([ind + rs] if wrap else []) + ([ind + lp] if lp else []) + [ind + f'do {v}=1,n']
+            lines += gen_block(rng, depth + 1, v, budget) + [ind + 'end do'] + ([ind + le] if le else []) + ([ind + re_] if wrap else [])
         elif c < 0.72 and depth < 3:
             v = 'ijk'[depth]
             lines += [ind + f'do {v}=1,n'] + gen_block(rng, depth + 1, v, budget) + [ind + 'end do']
@@ -473,6 +538,48 @@ def gen_ops(rng, kind, st0, newid):
             else:
                 inner = [[A('with-df'), inner]]
         return inner
+    if kind == 'mixedpost':  # different pragma_post flags on attach and detach
+        TL = [A(t) for t in expand_types(sorted(set(rng.sample(PRAGMA_TYPES, rng.randint(1, 2)) + ['Loop'] + (['WhileLoop'] if rng.random() < 0.5 else []))))]
+        a1, a0, d1, d0 = [A('attach'), TL, True], [A('attach'), TL, False], [A('detach'), TL, True], [A('detach'), TL, False]
+        rz = [[A('raise')]] if rng.random() < 0.4 else []
+        return rng.choice([
+            [a1, d0, d1], [a1, d0, a1, d1], [a0, a1, d0, d1], [a1, d0, d0, d1], [a0, d1], [a1, a0, d1],
+            [[A('with-pragmas'), TL, True, [[A('with-pragmas'), TL, False, rz]]]],
+            [[A('with-pragmas'), TL, False, [[A('with-pragmas'), TL, True, rz]]]],
+            [[A('with-pragmas'), TL, True, [a0, d0] + rz]],
+            [[A('with-pragmas'), TL, True, [d0] + rz]],
+            [[A('with-pragmas'), TL, True, [d0, [A('with-pragmas'), TL, False, rz]]]],
+            [a1, [A('with-pragmas'), TL, False, []], d1],
+        ])
+    if kind == 'interleave':  # non-LIFO orders of the attach / detach functions; every attach is undone later
+        if rng.random() < 0.3:
+            return [[A('rattach'), kw], att] + ([[A('dfattach')]] if rng.random() < 0.3 else []) + [[A('rdetach')], att, det] + \
+                ([[A('dfdetach')]] if False else [])
+        brackets = []
+        for name in rng.sample(['p', 'p2', 'r', 'd'], rng.randint(2, 3)):
+            if name in ('p', 'p2'):
+                T2 = [A(t) for t in rand_types(rng)]
+                p2 = rng.random() < 0.75
+                closes = [[A('detach'), T2, p2]]
+                r = rng.random()
+                if p2 and r < 0.3:
+                    closes = [[A('detach'), T2, False], [A('detach'), T2, True]]
+                elif r < 0.5 and len(T2) > 1:
+                    cut = rng.randint(1, len(T2) - 1)
+                    closes = [[A('detach'), T2[:cut], p2], [A('detach'), T2[cut:], p2]]
+                seq = [[A('attach'), T2, p2]] + closes
+                if rng.random() < 0.3:          # attach again before the last detach
+                    seq.insert(rng.randint(1, len(seq) - 1), [A('attach'), T2, p2])
+                brackets.append(seq)
+            elif name == 'r':
+                brackets.append([[A('rattach'), kw], [A('rdetach')]])
+            else:
+                brackets.append([[A('dfattach')], [A('dfdetach')]])
+        out = []
+        while any(brackets):
+            b = rng.choice([b for b in brackets if b])
+            out.append(b.pop(0))
+        return out
     if kind == 'mixed':      # arbitrary order of function forms: correspondence only
         pool = [att, det, [A('rattach'), kw], [A('rdetach')], [A('dfattach')], [A('dfdetach')],
                 [A('detach'), T, not post], [A('attach'), [A(t) for t in rand_types(rng)], True]]
@@ -512,7 +619,7 @@ def all_nodes(xs):
         yield from all_nodes(x[-1])
 
 
-KINDS = ['pragmas-fn', 'pragmas-ctx', 'regions-fn', 'regions-ctx', 'df-fn', 'df-ctx', 'nested', 'nested', 'mixed', 'edit', 'edit']
+KINDS = ['interleave', 'interleave', 'mixedpost', 'pragmas-fn', 'pragmas-ctx', 'regions-fn', 'regions-ctx', 'df-fn', 'df-ctx', 'nested', 'nested', 'mixed', 'edit', 'edit']
 
 
 class C16(Prop):
@@ -524,7 +631,8 @@ class C16(Prop):
     theorems = ['C16_full', 'C16_detach_attach', 'C16_nodeIds_attach', 'C16_nodeIds_detach', 'C16_regions_full_false',
                 'C16_regions_roundtrip_partial', 'C16_regions_roundtrip', 'C16_nodeIds_regions', 'C16_dataflow_full_false',
                 'C16_dataflow_roundtrip_partial', 'C16_dataflow_roundtrip', 'C16_bracket_restores', 'C16_bracket_raise',
-                'C16_bracket_df', 'C16_bracket_regions', 'runOps_exc']
+                'C16_bracket_df', 'C16_bracket_regions', 'runOps_exc', 'C16_detach_detach', 'C16_mixed_flags', 'C16_mixed_flags_clean',
+                'C16_nested_mixed_contexts', 'C16_detach_unreg_comm', 'C16_interleaved_regions', 'C16_interleaved_regions_clean']
     design_ref = 'DESIGN.md 4.B C16'
     level = 'proof'
     level_text = ('Lean theorems (kernel-checked, every body of any size and nesting, every set of node types, with and without '
@@ -535,7 +643,11 @@ class C16(Prop):
                   'C16_dataflow_roundtrip — with the handler table generated from the real classes (no class is skipped by the detacher) '
                   'detaching clears exactly the fields attaching set (C16_dataflow_roundtrip_partial/C16_dataflow_full_false: parametric in the '
                   'table, false for a table that skips a class); C16_bracket_restores/_raise/_df/_regions — the three context managers restore '
-                  'the unit on normal AND exceptional exit and the exception propagates. PARTIAL (open finding region-index-by-value): '
+                  'the unit on normal AND exceptional exit and the exception propagates; C16_detach_detach / C16_mixed_flags(_clean) / '
+                  'C16_nested_mixed_contexts — mixed attach_pragma_post / detach_pragma_post flags: a detach without pragma_post leaves those slots '
+                  'intact and a later full detach restores the body (also for an inner pragmas_attached(post=False) inside an outer one); '
+                  'C16_detach_unreg_comm / C16_interleaved_regions(_clean) — the non-LIFO order attach_pragma_regions; attach_pragmas; '
+                  'detach_pragma_regions; attach_pragmas; detach_pragmas restores the body (outside the open region class). PARTIAL (open finding region-index-by-value): '
                   'C16_regions_full_false — the region round trip is false with ==-equal pragmas; C16_regions_roundtrip(_partial) / '
                   'C16_nodeIds_regions — PragmaRegionDetacher undoes PragmaRegionAttacher for ANY list of pragma pairs (matched, unmatched, '
                   'cross-level) whenever value-index finds the paired objects in order (KnownRegionIndex = false). NOT proved, checked on '
@@ -552,7 +664,7 @@ class C16(Prop):
     technique = 'Lean 4 theorems about a hand-written model + correspondence of whole attach/detach histories with the real code'
     rule = ('random Fortran routines (loops, while, if/else, select case, associate, calls, declarations; pragmas before/after/between, '
             'matched, unmatched, cross-level, mixed-case and duplicate region pragmas, `end`-only pragmas) parsed by the real frontend; '
-            '11 kinds of histories per routine plus a region-flag request; non-trivial = the routine contains pragmas; distinct by request line')
+            '13 kinds of histories per routine (incl. non-LIFO interleavings of the attach/detach functions in which every attach is undone later, and mixed pragma_post flags in function and context-manager form with raising bodies) plus a region-flag request; the oracle speaks about every history that is properly nested or closed (harness trace/closed), private dataflow fields only for properly nested ones; non-trivial = the routine contains pragmas; distinct by request line')
     trusted_base = ['harness/props/c16.py exporter (real IR -> model items: identity numbering, Source numbering, Branch pseudo nodes)',
                     'Python port known_dup of the Lean KnownDupPragmas predicate (cross-checked by the regflags stream)',
                     'Lean driver evaluation of model definitions; ASCII String.toLower/splitOn vs str.lower/split']
@@ -576,7 +688,7 @@ class C16(Prop):
                 'end LokiModel.C16.Generated\n'}
 
     def gen(self, rng, tier):
-        n = {'quick': 28, 'thorough': 300, 'search': 100}.get(tier, 28)
+        n = {'quick': 26, 'thorough': 260, 'search': 100}.get(tier, 26)
         for k in range(n):
             src = gen_source(rng, rng.choice([6, 10, 16, 24]))
             try:
@@ -589,7 +701,7 @@ class C16(Prop):
             def newid():
                 counter[0] += 1
                 return counter[0]
-            for kind in (KINDS if tier != 'quick' else rng.sample(KINDS, 5)):
+            for kind in (KINDS if tier != 'quick' else ['interleave', 'mixedpost'] + rng.sample(KINDS[3:], 4)):
                 ops = gen_ops(rng, kind, st0, newid)
                 yield Case([A('run'), src, st0, ops], stream=kind, nontrivial=bool(_pragmas(sum((x[-1] for x in st0), []))))
             # state with attached slots and freshly inserted (possibly duplicate) pragmas for the region flags
@@ -624,9 +736,11 @@ class C16(Prop):
         if str(req[0]) != 'run':
             return []
         ops = req[3]
-        sh = shape(ops)
-        if sh is None:
-            return []
+        sh = shape(ops)                     # properly nested (LIFO) history?
+        tr, raised = trace(ops)
+        if sh is None and not closed(tr):
+            return []                       # some attach is never undone: the property does not speak (correspondence only)
+        edits = any(st[0] == 'insert' for st in tr)
         routine, env = build(str(req[1]))
         before = observe(routine)
         runner = Runner(routine, env)
@@ -640,14 +754,13 @@ class C16(Prop):
             cls = next((h for h in allowed if h in runner.hazards), None)
             fails.append(Failure(f'{what} [history {dumps(ops)[:160]}]', cls))
 
-        expect_raise = any(str(o[0]) == 'raise' for o in flat_ops(ops))
-        if status != ('raised' if expect_raise else 'ok'):
-            fail('text', f'history ended with status {status}, expected {"raised" if expect_raise else "ok"}')
+        if status != ('raised' if raised else 'ok'):
+            fail('text', f'history ended with status {status}, expected {"raised" if raised else "ok"}')
         if after['attached']:
             fail('text', f'{after["attached"]} slot(s)/region(s) still attached after the last detach')
         if before['node_ids'] != after['node_ids']:
             fail('text', 'identity or order of pre-existing non-pragma nodes changed')
-        if sh == 'pure':
+        if not edits:
             if before['text'] != after['text']:
                 fail('text', 'fgen text differs after attach…detach: ' + first_diff(before['text'], after['text']))
             elif before['struct'] != after['struct']:
@@ -665,7 +778,9 @@ class C16(Prop):
                         for a in set(v) ^ set(before['attrs'][k])})
         if extra:
             fail('attrs', f'instance attributes of pre-existing nodes changed: {extra}')
-        if after['df']:
+        # private dataflow fields: demanded for properly nested histories only (inlined pragmas and region pragmas are not
+        # children, so a non-LIFO detach_dataflow_analysis cannot reach them; structure, code and identities are unaffected)
+        if after['df'] and sh is not None:
             fail('dataflow', f'private dataflow fields still set on {after["df"][:3]} after detach')
         return fails
 
